@@ -31,10 +31,18 @@ type Parser struct {
 
 	errors []string
 
+	depth   int  // current nesting of parseExpression
+	tooDeep bool // MaxNesting was exceeded: unwind without parsing (or reporting) anything more
+
 	prefixParseFns  map[token.Type]prefixParseFn
 	infixParseFns   map[token.Type]infixParseFn
 	postfixParseFns map[token.Type]postfixParseFn
 }
+
+// MaxNesting is the maximum nesting of expressions/blocks the parser accepts. The parser (like the
+// formatter and parts of the evaluator) recurses on the Go stack once per nesting level without any other
+// guard; deeper input is reported as a parse error instead of overflowing the stack (which is fatal).
+const MaxNesting = 10_000
 
 func (p *Parser) ContinuationNeeded() bool {
 	return p.continuationNeeded
@@ -279,6 +287,9 @@ func (p *Parser) ErrorLine(forPreviousToken bool) (string, int) {
 }
 
 func (p *Parser) peekError(t token.Type) {
+	if p.tooDeep {
+		return // already reported, and each message would carry the whole (huge) line.
+	}
 	log.Debugf("peekError: %s", t)
 	errLine, lineNum := p.ErrorLine(false)
 	msg := fmt.Sprintf("%d: expected next token to be `%s`, got `%s` instead:\n%s",
@@ -287,6 +298,9 @@ func (p *Parser) peekError(t token.Type) {
 }
 
 func (p *Parser) noPrefixParseFnError(t *token.Token) {
+	if p.tooDeep {
+		return
+	}
 	log.Debugf("Adding noPrefixParseFnError: %s", t.DebugString())
 	errLine, lineNum := p.ErrorLine(true)
 	msg := fmt.Sprintf("%d: no prefix parse function for `%s` found:\n%s", lineNum, t.Literal(), errLine)
@@ -294,6 +308,22 @@ func (p *Parser) noPrefixParseFnError(t *token.Token) {
 }
 
 func (p *Parser) parseExpression(precedence ast.Priority) ast.Node {
+	if p.tooDeep {
+		return nil
+	}
+	if p.depth >= MaxNesting {
+		_, _, lineNum := p.l.CurrentLine()
+		p.errors = append(p.errors, fmt.Sprintf("%d: nesting deeper than %d levels", lineNum, MaxNesting))
+		p.tooDeep = true
+		return nil
+	}
+	p.depth++
+	n := p.parseExpressionNested(precedence)
+	p.depth--
+	return n
+}
+
+func (p *Parser) parseExpressionNested(precedence ast.Priority) ast.Node {
 	log.Debugf("parseExpression: %s precedence %s", p.curToken.DebugString(), precedence)
 	if p.curToken.Type() == token.EOL {
 		log.Debugf("parseExpression: EOL")
